@@ -342,9 +342,14 @@ impl Version {
         let mut input = original;
 
         if input.len() > MAX_LENGTH {
+            // point at where the allowed length ends, never inside a character
+            let mut end = MAX_LENGTH;
+            while !input.is_char_boundary(end) {
+                end -= 1;
+            }
             return Err(SemverError {
                 input: input.into(),
-                span: (input.len() - 1, 0).into(),
+                span: (end, 0).into(),
                 kind: SemverErrorKind::MaxLengthError,
             });
         }
